@@ -515,3 +515,93 @@ Definition leaf_spec (put : bool) (xi ii : Z) (has_fill : bool) (fillc : Z) (cs 
       (st, map (res_code dst) rs)
   | _, _ => (0, map (fun _ => (4, 0)) cs)
   end.
+
+(* ------------------------------------------------------------------ request level *)
+(* Nonblocking requests (ncmpio_i_getput.m4, ncmpio_wait.c).  A PUT request (iput/bput) is converted
+   when it is posted: ncmpi_iput/bput_* returns the conversion status (NC_ERANGE is not fatal, the
+   request is queued with the fill substituted) and the later wait reports NC_NOERR for it.  A GET
+   request is converted when it is completed: req_commit walks the completed requests in queue
+   (= posting) order; `gate_step` is the statement that records err = ncmpio_unpack_xbuf(...):
+   st = function-wide first error (return value of wait/wait_all), w = the request's status word
+   (reset to NC_NOERR by extract_reqs). *)
+Definition NC_EPENDING : Z := -236.
+Definition gate_step (g : gate_kind) (st w err : Z) : Z * Z :=
+  match g with
+  | GateOwn => if err =? NC_NOERR then (st, w)
+               else ((if st =? NC_NOERR then err else st), (if w =? NC_NOERR then err else w))
+  | GateGlobal => if negb (err =? NC_NOERR) && (st =? NC_NOERR) then (err, err) else (st, w)
+  | GateUnrec => (-9999, -9999)
+  end.
+Fixpoint commit_get (g : gate_kind) (st : Z) (errs : list Z) : Z * list Z :=
+  match errs with
+  | [] => (st, [])
+  | e :: r => let '(st', w) := gate_step g st NC_NOERR e in
+              let '(st'', ws) := commit_get g st' r in (st'', w :: ws)
+  end.
+
+(* one request: (is_put, external type index, memory type index, element codes) *)
+Definition nbreq := (bool * Z * Z * list Z)%type.
+Definition nb_conv (fmt : Z) (r : nbreq) : Z * list (Z * Z) :=
+  let '(put, xi, ii, cs) := r in api_model false put fmt xi ii false 0 cs.
+Definition nb_is_put (r : nbreq) : bool := let '(put, _, _, _) := r in put.
+
+(* result: (return value of wait/wait_all, per request in posting order (post status, status word, elements)) *)
+Fixpoint nb_assign (rs : list nbreq) (cv : list (Z * list (Z * Z))) (ws : list Z)
+  : list (Z * Z * list (Z * Z)) :=
+  match rs, cv with
+  | r :: rs', c :: cv' =>
+      if nb_is_put r then (fst c, NC_NOERR, snd c) :: nb_assign rs' cv' ws
+      else (match ws with
+            | w :: ws' => (NC_NOERR, w, snd c) :: nb_assign rs' cv' ws'
+            | [] => (NC_NOERR, -9999, snd c) :: nb_assign rs' cv' []
+            end)
+  | _, _ => []
+  end.
+Definition nb_geterrs (fmt : Z) (reqs : list nbreq) : list Z :=
+  map (fun r => fst (nb_conv fmt r)) (filter (fun r => negb (nb_is_put r)) reqs).
+Definition nb_model (fmt : Z) (reqs : list nbreq) : Z * list (Z * Z * list (Z * Z)) :=
+  (* the writes of the batch complete first (no conversion left to do), then the reads *)
+  let '(rc, ws) := commit_get req_gate NC_NOERR (nb_geterrs fmt reqs) in
+  (rc, nb_assign reqs (map (nb_conv fmt) reqs) ws).
+
+(* SPEC: every request is judged on its own data *)
+Definition nb_spec1 (fmt : Z) (r : nbreq) : Z * Z * list (Z * Z) :=
+  let '(put, xi, ii, cs) := r in
+  let '(st, rs) := api_spec put fmt xi ii false 0 cs in
+  if put then (st, NC_NOERR, rs) else (NC_NOERR, st, rs).
+Definition nb_spec (fmt : Z) (reqs : list nbreq) : Z * list (Z * Z * list (Z * Z)) :=
+  let rs := map (nb_spec1 fmt) reqs in
+  ((if existsb (fun r => negb (snd (fst r) =? NC_NOERR)) rs then NC_ERANGE else NC_NOERR), rs).
+
+(* blocking ncmpi_put_varn_<T>[_all] (ncmpio_varn.m4) = iput_varn + wait; element kind 2 = left untouched.
+   result: (status, pending requests afterwards, status of ncmpi_close, elements) *)
+Definition untouched (cs : list Z) : list (Z * Z) := map (fun _ => (2, 0)) cs.
+Definition varn_model (indep : bool) (fmt xi ii : Z) (cs : list Z) : Z * Z * Z * list (Z * Z) :=
+  let '(st, rs) := api_model false true fmt xi ii false 0 cs in
+  match varn_gate with
+  | VarnEarlyAny => if indep && negb (st =? NC_NOERR) then (st, 1, NC_EPENDING, untouched cs) else (st, 0, NC_NOERR, rs)
+  | VarnEarlyFatal => (st, 0, NC_NOERR, rs)
+  | VarnUnrec => (-9999, 0, 0, map (fun _ => (4, 0)) cs)
+  end.
+Definition varn_spec (fmt xi ii : Z) (cs : list Z) : Z * Z * Z * list (Z * Z) :=
+  let '(st, rs) := api_spec true fmt xi ii false 0 cs in (st, 0, NC_NOERR, rs).
+
+(* blocking ncmpi_mput_var_<T>[_all] (dispatchers/var_getput.m4): one iput per variable, loop left at the
+   first status <> NC_NOERR, wait for the requests posted before it *)
+Fixpoint mput_model_loop (fmt xi ii : Z) (vars : list (list Z)) : Z * list (Z * Z) :=
+  match vars with
+  | [] => (NC_NOERR, [])
+  | cs :: r => let '(st, rs) := api_model false true fmt xi ii false 0 cs in
+               if st =? NC_NOERR then let '(st', rs') := mput_model_loop fmt xi ii r in (st', rs ++ rs')
+               else (st, untouched cs ++ flat_map untouched r)
+  end.
+Definition mput_model (fmt xi ii : Z) (vars : list (list Z)) : Z * Z * Z * list (Z * Z) :=
+  match mput_gate with
+  | MputBreakAny => let '(st, rs) := mput_model_loop fmt xi ii vars in
+                    if st =? NC_NOERR then (st, 0, NC_NOERR, rs) else (st, 1, NC_EPENDING, rs)
+  | MputUnrec => (-9999, 0, 0, flat_map (fun cs => map (fun _ => (4, 0)) cs) vars)
+  end.
+Definition mput_spec (fmt xi ii : Z) (vars : list (list Z)) : Z * Z * Z * list (Z * Z) :=
+  let rs := map (fun cs => api_spec true fmt xi ii false 0 cs) vars in
+  ((if existsb (fun r => negb (fst r =? NC_NOERR)) rs then NC_ERANGE else NC_NOERR), 0, NC_NOERR,
+   flat_map snd rs).
